@@ -18,6 +18,10 @@ vars == <<dim, x0, cur, acc, hist>>
 
 ASSUME \A i \in DOMAIN Pool2 : Det(Pool2[i]) # 0
 ASSUME \A i \in DOMAIN Pool3 : Det(Pool3[i]) # 0
+ASSUME \A i \in DOMAIN Pool1 : Det(Pool1[i]) # 0 /\ Len(Pool1) = Len(Pool2)
+
+\* points of the projective line (incl. the origin, the point at infinity, non-primitive and negative representatives)
+Objects1 == { Obj("point", <<1,1>>), Obj("point", <<0,1>>), Obj("point", <<1,0>>), Obj("point", <<-3,2>>), Obj("point", <<4,-2>>), Obj("point", <<2,3>>) }
 
 Objects2 == {
   Obj("point", <<1,2,1>>), Obj("point", <<0,0,1>>), Obj("point", <<1,1,0>>), Obj("point", <<-2,3,2>>),
@@ -51,7 +55,7 @@ Objects3 == {
   Obj("polygon", << <<0,0,0,1>>, <<2,0,0,1>>, <<0,2,1,1>> >>),
   Obj("polygon", << <<0,0,1,1>>, <<2,0,1,1>>, <<2,2,3,1>>, <<0,2,3,1>> >>),
   Obj("polyhedron", Tetra) }
-ObjectsOf(d) == IF d = 2 THEN Objects2 ELSE Objects3
+ObjectsOf(d) == IF d = 1 THEN Objects1 ELSE IF d = 2 THEN Objects2 ELSE Objects3
 
 Ops(d) == {<<"apply", i, 1>> : i \in DOMAIN PoolOf(d)}
           \cup {<<"inv", i, -1>> : i \in DOMAIN PoolOf(d)}
